@@ -87,7 +87,7 @@ def setup(ctx):
     from periodictable import core, formulas, mass, density
     from ..ref.masses import MassModel
     from ..statemon import Reach
-    from ..gen.formulas import watch_nested
+    from ..gen.formulas import watch_nested, watch_private
 
     _s['model'] = MassModel()
     _s['me'] = pt.constants.electron_mass
@@ -96,11 +96,12 @@ def setup(ctx):
     density.init(T)
     _s['tables'] = {'public': pt.elements, 'private': T}
 
+    reach = Reach()
+    watch_private(ctx, reach, formulas, '_count_atoms')      # evidence only (no requirement on it)
     # contract on the private _count_atoms (optional instrumentation)
     stats = _s['contract'] = {'evals': 0, 'unrecognised': 0}
     _attach_count_atoms_contract(ctx, stats)
 
-    reach = Reach()
     # the four parse actions are nested functions of formula_grammar on the pinned tree (private names): when they
     # were renamed / moved the counter is evidence only
     watch_nested(ctx, reach, getattr(formulas, 'formula_grammar', None), ACTIONS)
@@ -123,8 +124,13 @@ def finish(ctx):
     _s['reach'].stop()
     _s['reach'].export(ctx)
     ctx.count('contract._count_atoms', _s['contract']['evals'])
+    from ..gen.formulas import waive_dead
+    waive_dead(ctx, '_count_atoms', ['contract._count_atoms'], 'eval.atoms')
     if _s['contract']['unrecognised']:
+        from ..gen.formulas import waive_unjudged
         ctx.count('contract._count_atoms.unrecognised_call', _s['contract']['unrecognised'])
+        waive_unjudged(ctx, 'contract._count_atoms', _s['contract']['evals'], _s['contract']['unrecognised'],
+                       'the private formulas._count_atoms')
 
 
 # ---------------------------------------------------------------- oracles
